@@ -65,7 +65,18 @@ type rsc struct {
 	r *bytes.Reader
 }
 
-func (s rsc) Read(p []byte) (int, error)         { return s.r.Read(p) }
+func (s rsc) Read(p []byte) (int, error) {
+	if srcSeams != nil {
+		if err := srcSeams.hit("src"); err != nil {
+			return 0, err
+		}
+	}
+	return s.r.Read(p)
+}
+
+// srcSeams, when set, makes reads of harness-supplied archive sources observable/faultable (C10)
+var srcSeams *Seams
+
 func (s rsc) Seek(o int64, w int) (int64, error) { return s.r.Seek(o, w) }
 func (rsc) Close() error                         { return nil }
 
@@ -100,7 +111,7 @@ func membersSrc(ms []config.FileConfig) func() (config.FileConfig, error) {
 func fileMember(p string, content []byte, mode os.FileMode, mt time.Time) config.FileConfig {
 	return config.FileConfig{
 		GetFile: func() (io.ReadSeekCloser, error) {
-			if sourceWriterTo {
+			if sourceWriterTo && srcSeams == nil {
 				return rscWT{bytes.NewReader(content)}, nil
 			}
 			return rsc{bytes.NewReader(content)}, nil
